@@ -56,9 +56,12 @@ Definition ctx0 : context := Ctx (B "(stdin)") 0 0 0.                      (* Ne
 Definition start_file (c : context) (name : bytes) : context := Ctx name (filenum c + 1) (nr c) 0.   (* UpdateForStartOfFile *)
 Definition input_record (c : context) : context := Ctx (filename c) (filenum c) (nr c + 1) (fnr c + 1).  (* UpdateForInputRecord *)
 
-(* a line is the list of its fields; for DKVP each field carries its key, for CSV-like formats the key part is unused *)
+(* a line is the list of its fields; for DKVP each field carries its key, for CSV-like formats the key part is unused;
+   the empty list is a blank line *)
 Definition line := list (bytes * bytes).
-Inductive rmode := MPairs | MHeader | MImplicit.
+Inductive rmode := MPairs | MHeader | MImplicit | MNidx.
+(* reader options: format family; csvlite (vs csv); --no-dedupe-field-names off/on; --allow-ragged-csv-input *)
+Record ropts := ROpts { o_mode : rmode; o_lite : bool; o_dedupe : bool; o_ragged : bool }.
 
 (* decimal rendering of positional keys / counters *)
 Fixpoint dec_digits (fuel : nat) (n : Z) (acc : bytes) : bytes :=
@@ -71,72 +74,112 @@ Definition dec (n : Z) : bytes := if n <? 0 then "-"%char :: dec_digits 20 (- n)
 
 Fixpoint positional (i : Z) (l : line) : record :=
   match l with [] => [] | (_, v) :: t => (dec i, v) :: positional (i + 1) t end.
+Fixpoint pos_keys (i : Z) (n : nat) : list bytes :=
+  match n with O => [] | S k => dec i :: pos_keys (i + 1) k end.
 
-(* header line + data line -> record; None on a length mismatch (the reader reports an error).
-   Header keys are assumed distinct (the reader's key de-duplication a,a_2,... is not modelled). *)
-Fixpoint zip_header (h : list bytes) (l : line) : option record :=
-  match h, l with
-  | [], [] => Some []
-  | k :: h', (_, v) :: l' => match zip_header h' l' with Some r => Some ((k, v) :: r) | None => None end
-  | _, _ => None
+(* RecordArena.PutDeferred (record_arena.go): new key -> append; existing key -> overwrite in place without dedupe,
+   else append under the first free key_2, key_3, ... *)
+Fixpoint first_free (fuel : nat) (k : bytes) (i : Z) (r : record) : bytes :=
+  let cand := k ++ "_"%char :: dec i in
+  match fuel with
+  | O => cand
+  | S f => if has cand r then first_free f k (i + 1) r else cand
   end.
-(* PutReference semantics for duplicate keys in a DKVP line: later value overwrites in place *)
-Fixpoint of_pairs (l : line) (acc : record) : record :=
-  match l with [] => acc | (k, v) :: t => of_pairs t (put k v acc) end.
+Definition put_deferred (dedupe : bool) (k v : bytes) (r : record) : record :=
+  if has k r then (if dedupe then put (first_free (S (List.length r)) k 2 r) v r else put k v r) else put k v r.
+
+Fixpoint of_pairs (dedupe : bool) (l : line) (acc : record) : record :=
+  match l with [] => acc | (k, v) :: t => of_pairs dedupe t (put_deferred dedupe k v acc) end.
+(* header keys zipped with values, as far as both go *)
+Fixpoint build (dedupe : bool) (h : list bytes) (vs : list bytes) (acc : record) : record :=
+  match h, vs with
+  | k :: h', v :: vs' => build dedupe h' vs' (put_deferred dedupe k v acc)
+  | _, _ => acc
+  end.
+(* data longer than header: 1-up positional keys for the surplus *)
+Fixpoint extras (dedupe : bool) (i : Z) (vs : list bytes) (acc : record) : record :=
+  match vs with [] => acc | v :: t => extras dedupe (i + 1) t (put_deferred dedupe (dec i) v acc) end.
+(* csvlite, header longer than data: empty values for the missing fields *)
+Fixpoint fills (dedupe : bool) (h : list bytes) (acc : record) : record :=
+  match h with [] => acc | k :: t => fills dedupe t (put_deferred dedupe k [] acc) end.
+
+Definition row (o : ropts) (h vs : list bytes) : option record :=
+  let nh := List.length h in let nd := List.length vs in
+  if Nat.eqb nh nd then Some (build (o_dedupe o) h vs [])
+  else if o_ragged o then
+    let base := build (o_dedupe o) h vs [] in
+    if Nat.ltb nh nd then Some (extras (o_dedupe o) (Z.of_nat nh + 1) (skipn nh vs) base)
+    else if o_lite o then Some (fills (o_dedupe o) (skipn nd h) base)
+    else Some base                      (* csv: "leave it short. This is a job for unsparsify." *)
+  else None.                            (* header/data length mismatch: the reader reports an error *)
+
+(* one input line against the header state of the current file *)
+Inductive lres := LFail | LSkip (h : option (list bytes)) | LRec (h : option (list bytes)) (r : record).
+Definition line_step (o : ropts) (h : option (list bytes)) (l : line) : lres :=
+  match o_mode o with
+  | MPairs => LRec h (of_pairs (o_dedupe o) l [])
+  | MNidx => LRec h (positional 1 l)
+  | MHeader | MImplicit =>
+      (* a blank line: csvlite resets the schema; the CSV reader sees a row with one empty field *)
+      let l1 := match l with [] => if o_lite o then [] else [([], [])] | _ => l end in
+      match l1 with
+      | [] => LSkip None
+      | _ =>
+          let vs := map snd l1 in
+          match h with
+          | None =>
+              match o_mode o with
+              | MHeader => LSkip (Some vs)
+              | _ => let hh := pos_keys 1 (List.length vs) in
+                     match row o hh vs with Some r => LRec (Some hh) r | None => LFail end
+              end
+          | Some hh => match row o hh vs with Some r => LRec h r | None => LFail end
+          end
+      end
+  end.
 
 (* the reader as a state machine over the flat event stream of all files *)
 Inductive event := FileStart (name : bytes) | Line (l : line).
 Record rstate := RS { rctx : context; rheader : option (list bytes); rfailed : bool }.
 
-Definition reader_step (m : rmode) (s : rstate) (e : event) : rstate * list (record * context) :=
+Definition reader_step (o : ropts) (s : rstate) (e : event) : rstate * list (record * context) :=
   if rfailed s then (s, []) else
   match e with
   | FileStart name =>
-      (* processHandle: context.UpdateForStartOfFile; reader.needHeader / reader.header reset *)
+      (* processHandle: context.UpdateForStartOfFile; reader.needHeader / reader.header / headerStrings reset *)
       (RS (start_file (rctx s) name) None false, [])
   | Line l =>
-      match m with
-      | MPairs => let c := input_record (rctx s) in (RS c (rheader s) false, [(of_pairs l [], c)])
-      | MImplicit => let c := input_record (rctx s) in (RS c (rheader s) false, [(positional 1 l, c)])
-      | MHeader =>
-          match rheader s with
-          | None => (RS (rctx s) (Some (map snd l)) false, [])
-          | Some h =>
-              match zip_header h l with
-              | Some r => let c := input_record (rctx s) in (RS c (rheader s) false, [(r, c)])
-              | None => (RS (rctx s) (rheader s) true, [])
-              end
-          end
+      match line_step o (rheader s) l with
+      | LFail => (RS (rctx s) (rheader s) true, [])
+      | LSkip h => (RS (rctx s) h false, [])
+      | LRec h r => let c := input_record (rctx s) in (RS c h false, [(r, c)])
       end
   end.
 
-Fixpoint reader_run (m : rmode) (s : rstate) (es : list event) : rstate * list (record * context) :=
+Fixpoint reader_run (o : ropts) (s : rstate) (es : list event) : rstate * list (record * context) :=
   match es with
   | [] => (s, [])
-  | e :: t => let '(s1, o1) := reader_step m s e in let '(s2, o2) := reader_run m s1 t in (s2, o1 ++ o2)
+  | e :: t => let '(s1, o1) := reader_step o s e in let '(s2, o2) := reader_run o s1 t in (s2, o1 ++ o2)
   end.
 
 Definition file := (bytes * list line)%type.
 Definition events_of (fs : list file) : list event :=
   flat_map (fun f => FileStart (fst f) :: map Line (snd f)) fs.
 Definition rs0 : rstate := RS ctx0 None false.
-Definition read_files (m : rmode) (fs : list file) : rstate * list (record * context) := reader_run m rs0 (events_of fs).
+Definition read_files (o : ropts) (fs : list file) : rstate * list (record * context) := reader_run o rs0 (events_of fs).
 
 (* reading one file alone, as a function (the specification side of "inputs concatenate") *)
-Fixpoint parse_rows (h : list bytes) (rows : list line) : option (list record) :=
-  match rows with
+Fixpoint parse_lines (o : ropts) (h : option (list bytes)) (ls : list line) : option (list record) :=
+  match ls with
   | [] => Some []
-  | l :: t => match zip_header h l, parse_rows h t with
-              | Some r, Some rs => Some (r :: rs)
-              | _, _ => None
-              end
+  | l :: t =>
+      match line_step o h l with
+      | LFail => None
+      | LSkip h' => parse_lines o h' t
+      | LRec h' r => match parse_lines o h' t with Some rs => Some (r :: rs) | None => None end
+      end
   end.
-Definition parse_file (m : rmode) (ls : list line) : option (list record) :=
-  match m with
-  | MPairs => Some (map (fun l => of_pairs l []) ls)
-  | MImplicit => Some (map (positional 1) ls)
-  | MHeader => match ls with [] => Some [] | h :: rows => parse_rows (map snd h) rows end
-  end.
+Definition parse_file (o : ropts) (ls : list line) : option (list record) := parse_lines o None ls.
 
 (* closed form of the contexts: record i (0-based) of file j (0-based), [before] records in earlier files *)
 Fixpoint number_from (name : bytes) (fnum : Z) (before : Z) (i : Z) (rs : list record) : list (record * context) :=
@@ -156,7 +199,8 @@ Fixpoint rename_key (old new : bytes) (r : record) : record :=
 Definition rename_rec (old new : bytes) (r : record) : record :=
   match get old r with
   | None => r
-  | Some v => if has new r then remove old (put new v r) else rename_key old new r
+  | Some v => if beqb old new then r        (* no-op since /repo bdf02f36c *)
+              else if has new r then remove old (put new v r) else rename_key old new r
   end.
 
 Definition v_map (f : record -> record) : verb := Verb unit tt (fun s r => (s, [f r])) (fun _ => []).
@@ -208,23 +252,71 @@ Fixpoint bytes_ltb (a b : bytes) : bool :=
   | _ :: _, [] => false
   | x :: a', y :: b' => if (code x <? code y)%N then true else if (code y <? code x)%N then false else bytes_ltb a' b'
   end.
-Fixpoint insert_group (g : bytes * list record) (gs : list (bytes * list record)) : list (bytes * list record) :=
+Fixpoint insert_group (lt : bytes -> bytes -> bool) (g : bytes * list record) (gs : list (bytes * list record)) : list (bytes * list record) :=
   match gs with
   | [] => [g]
-  | h :: t => if bytes_ltb (fst g) (fst h) then g :: h :: t else h :: insert_group g t
+  | h :: t => if lt (fst g) (fst h) then g :: h :: t else h :: insert_group lt g t
   end.
-Definition sort_groups (gs : list (bytes * list record)) : list (bytes * list record) :=
-  fold_left (fun acc g => insert_group g acc) gs [].
-Definition v_sort_f (k : bytes) : verb :=
+Definition sort_groups (lt : bytes -> bytes -> bool) (gs : list (bytes * list record)) : list (bytes * list record) :=
+  fold_left (fun acc g => insert_group lt g acc) gs [].
+Definition v_sort_by (lt : bytes -> bytes -> bool) (k : bytes) : verb :=
   Verb (list (bytes * list record) * list record) ([], [])
        (fun s r => match get k r with Some v => ((group_add v r (fst s), snd s), []) | None => ((fst s, snd s ++ [r]), []) end)
-       (fun s => flat_map snd (sort_groups (fst s)) ++ snd s).
+       (fun s => flat_map snd (sort_groups lt (fst s)) ++ snd s).
+Definition v_sort_f (k : bytes) : verb := v_sort_by bytes_ltb k.
+
+(* sort -nf / -nr: mlrval.Cmp on values from data, restricted to the value domain of the generator: canonical decimal
+   integers (numeric), every other text (string or empty; ordered bytewise, after all numbers) *)
+Fixpoint parse_digits (s : bytes) (acc : Z) : Z :=
+  match s with [] => acc | c :: t => parse_digits t (acc * 10 + (Z.of_N (code c) - 48)) end.
+Definition parse_dec (s : bytes) : Z :=
+  match s with c :: t => if Ascii.eqb c "-" then - parse_digits t 0 else parse_digits s 0 | [] => 0 end.
+Definition num_of (s : bytes) : option Z := let n := parse_dec s in if beqb (dec n) s then Some n else None.
+Definition ncmp_lt (a b : bytes) : bool :=
+  match num_of a, num_of b with
+  | Some x, Some y => x <? y
+  | Some _, None => true
+  | None, Some _ => false
+  | None, None => bytes_ltb a b
+  end.
+Definition v_sort_n (descending : bool) (k : bytes) : verb :=
+  v_sort_by (fun a b => if descending then ncmp_lt b a else ncmp_lt a b) k.
+
+(* label n1,n2,...: Mlrmap.Label *)
+Fixpoint label_take (names : list bytes) (r : record) (acc : record) : record * record :=
+  match names, r with
+  | n :: ns, (_, v) :: t => label_take ns t (put n v acc)
+  | _, _ => (acc, r)
+  end.
+Definition label_rec (names : list bytes) (r : record) : record :=
+  let '(other, rest) := label_take names r [] in
+  fold_left (fun o kv => if has (fst kv) o then o else o ++ [kv]) rest other.
+Definition v_label (names : list bytes) : verb := v_map (label_rec names).
+
+(* regularize: records with the same key set get the key order of the first such record *)
+Fixpoint insert_key (k : bytes) (l : list bytes) : list bytes :=
+  match l with [] => [k] | h :: t => if bytes_ltb k h then k :: h :: t else h :: insert_key k t end.
+Definition sort_keys (l : list bytes) : list bytes := fold_right insert_key [] l.
+Fixpoint keys_eqb (a b : list bytes) : bool :=
+  match a, b with [] , [] => true | x :: a', y :: b' => beqb x y && keys_eqb a' b' | _, _ => false end.
+Fixpoint lookup_keys (sk : list bytes) (st : list (list bytes * list bytes)) : option (list bytes) :=
+  match st with [] => None | (s, o) :: t => if keys_eqb sk s then Some o else lookup_keys sk t end.
+Definition v_regularize : verb :=
+  Verb (list (list bytes * list bytes)) []
+       (fun st r => let ks := keys r in let sk := sort_keys ks in
+                    match lookup_keys sk st with
+                    | None => (st ++ [(sk, ks)], [r])
+                    | Some orig => (st, [map (fun n => (n, match get n r with Some v => v | None => [] end)) orig])
+                    end)
+       (fun _ => []).
+
 Definition v_nothing : verb := Verb unit tt (fun s _ => (s, [])) (fun _ => []).
 
 Inductive vcode :=
 | VCat | VTac | VHead (n : Z) | VTail (n : Z) | VRename (old new : bytes) | VCutKeep (ks : list bytes) | VCutDrop (ks : list bytes)
 | VReorderHead (k : bytes) | VReorderTail (k : bytes) | VFillDown (a : bool) (k : bytes) | VPutDot (z x sfx : bytes) | VCatN
-| VCountSimilar (k : bytes) | VSortF (k : bytes) | VNothing.
+| VCountSimilar (k : bytes) | VSortF (k : bytes) | VNothing
+| VSortN (descending : bool) (k : bytes) | VLabel (names : list bytes) | VRegularize.
 
 Definition verb_of (c : vcode) : verb :=
   match c with
@@ -232,8 +324,43 @@ Definition verb_of (c : vcode) : verb :=
   | VCutKeep ks => v_cut_keep ks | VCutDrop ks => v_cut_drop ks | VReorderHead k => v_reorder_head k
   | VReorderTail k => v_reorder_tail k | VFillDown a k => v_fill_down a k | VPutDot z x s => v_put_dot z x s | VCatN => v_cat_n
   | VCountSimilar k => v_count_similar k | VSortF k => v_sort_f k | VNothing => v_nothing
+  | VSortN d k => v_sort_n d k | VLabel ns => v_label ns | VRegularize => v_regularize
   end.
 
 Fixpoint zseq (start : Z) (n : nat) : list Z :=
   match n with O => [] | S k => start :: zseq (start + 1) k end.
 Definition total_records (recs : list (list record)) : nat := List.length (List.concat recs).
+
+(* ------------------------------------------------------------------ (4) verbs that can see the context *)
+(* What a Go verb really receives: records WITH their contexts, and the end-of-stream marker's context.  A verb is
+   oblivious when its output records do not depend on the contexts. *)
+Definition crec := (record * context)%type.
+Record cverb := CVerb {
+  cstate : Type;
+  cinit : cstate;
+  cstep : cstate -> crec -> cstate * list crec;
+  cfinish : cstate -> context -> list crec
+}.
+Fixpoint cfeed (v : cverb) (s : cstate v) (xs : list crec) : cstate v * list crec :=
+  match xs with
+  | [] => (s, [])
+  | x :: t => let '(s1, o1) := cstep v s x in let '(s2, o2) := cfeed v s1 t in (s2, o1 ++ o2)
+  end.
+Definition crun (v : cverb) (xs : list crec) (endc : context) : list crec :=
+  let '(s, out) := cfeed v (cinit v) xs in out ++ cfinish v s endc.
+Definition cchain (a b : cverb) : cverb :=
+  CVerb (cstate a * cstate b) (cinit a, cinit b)
+        (fun s x => let '(sa, ys) := cstep a (fst s) x in let '(sb, zs) := cfeed b (snd s) ys in ((sa, sb), zs))
+        (fun s c => let '(sb, zs) := cfeed b (snd s) (cfinish a (fst s) c) in zs ++ cfinish b sb c).
+Definition oblivious (v : cverb) : Prop :=
+  forall xs ys c c', map fst xs = map fst ys -> map fst (crun v xs c) = map fst (crun v ys c').
+(* a context-free verb seen as a context-taking one: outputs carry the context of the input that triggered them *)
+Definition lift (v : verb) : cverb :=
+  CVerb (vstate v) (vinit v)
+        (fun s x => let '(s1, outs) := vstep v s (fst x) in (s1, map (fun r => (r, snd x)) outs))
+        (fun s c => map (fun r => (r, c)) (vfinish v s)).
+(* a pipe: the downstream process reads the records afresh and numbers them itself *)
+Definition renumber (name : bytes) (rs : list record) : list crec := number_from name 1 0 1 rs.
+(* put '$nr = NR': NOT oblivious *)
+Definition cput_nr : cverb :=
+  CVerb unit tt (fun s x => (s, [(put (B "nr") (dec (nr (snd x))) (fst x), snd x)])) (fun _ _ => []).
